@@ -34,6 +34,7 @@ fn main() {
                 seed = v["seed"].as_u64().expect("seed");
                 tier = if v["tier"].as_str() == Some("thorough") { Tier::Thorough } else { Tier::Quick };
                 replay = Some((fam, idx));
+                qvmon::fw::set_replay_path(&args[i]);
             }
             other => {
                 eprintln!("unknown argument {other}");
